@@ -304,7 +304,8 @@ func newChecker(r *ev.Run) *checker {
 func (c *checker) newJob(p prog, kind string, files map[int][]byte, faults []fault) *job {
 	c.nextID++
 	j := &job{ID: c.nextID, Prog: p, Exec: kind, Files: files, Faults: faults}
-	if len(faults) == 0 {
+	if len(faults) == 0 && !(p.reads() && len(files) < nShard) {
+		// (ReadCache without all its files fails by design: nothing to repeat)
 		j.Tries = 3
 	}
 	return j
@@ -671,7 +672,7 @@ func (c *checker) first(j *job, res *result) {
 		c.r.Machinery(fmt.Sprintf("case %s: the run did not return within %v\n%s", c.caseName(j), hangAfter, tail(res.Dump, 3000)))
 		return
 	}
-	if len(res.Flaky) > 0 {
+	if len(res.Flaky) > 0 && res.Run.OK {
 		c.mech["fault-free runs that failed once and succeeded when repeated"]++
 		if c.mech["fault-free runs that failed once and succeeded when repeated"] <= 5 {
 			c.r.Note("repeated: %s: %v", c.caseName(j), res.Flaky)
@@ -713,8 +714,11 @@ func (c *checker) drain() {
 				delete(c.waiting, k)
 				return
 			}
-			if len(res.Flaky) > 0 {
+			if len(res.Flaky) > 0 && res.Run.OK {
 				c.mech["fault-free runs that failed once and succeeded when repeated"]++
+				if c.mech["fault-free runs that failed once and succeeded when repeated"] <= 5 {
+					c.r.Note("repeated: second run of %s: %v", c.caseName(j), res.Flaky)
+				}
 			}
 			c.memo[k] = res
 			for _, f := range c.waiting[k] {
